@@ -122,6 +122,11 @@ def run(ctx):
     if ctx.thorough:
         menu += [("k2b", [L], 1), ("k3a", [L], 1), ("k3b", [L], 0), ("k2mat", [L], 0), ("k2w3", [L], 0)]
     ps = ml.e2_plans(ctx, menu, MONS, conform=False)
+    # the loop's control skeleton (scripted relabel outputs, see C09): final states whose labels differ from the
+    # labels last fitted, incl. an emptied or singleton cluster, for every label sequence up to length 3
+    from checks.c09 import work_skeleton, SK_ALPHA
+    for r in ctx.pmap(work_skeleton, [(limit, [f], ("first",), ['C17']) for limit in (1, 2, 3) for f in sorted(SK_ALPHA)]):
+        ctx.take(r)
     ml.explore(ctx, ps)
     ctx.cov["exhaustive"] = True
     ctx.cov["rule"] = (
@@ -131,9 +136,18 @@ def run(ctx):
         "unchanged under translation; a mismatch that equals the same formula with the scalar mean of all entries "
         "is the listed known finding, anything else a violation. (b) every converged enumerated main-loop run with "
         "all clusters non-empty. non-trivial = cases with non-zero within-cluster dispersion")
+    ctx.cov["rule"] += (" Plus control-skeleton runs: the main loop with the relabel phase's output scripted, every label "
+                        "sequence over 5 labellings up to length 3 (final labels that differ from the labels last fitted, "
+                        "emptied and singleton clusters).")
 
 
 def replay(ctx, case):
+    if case.get("kind") == "skeleton":
+        from vlib import lib
+        lib.load("nojit")
+        from checks.c09 import work_skeleton
+        ctx.take(work_skeleton((case["limit"], [case["sequence"][0]], (case["draw"],), case.get("monitors", ['C17']))))
+        return
     from vlib import lib
     lib.load("nojit")
     if "data" in case:
